@@ -44,6 +44,30 @@ def r20_1(prog, rep):
         f = prog.fn(name, "instant.h")
         p0, p1 = f.params[0]["n"], f.params[1]["n"]
         i0, i1 = _incs(f, p0), _incs(f, p1)
+        # the normalisation delegated to a helper that is handed each operand by value and answers the packed word of its wrapped copy
+        # (`kx = ordkey(x); ky = ordkey(y); return kx < ky;`): the helper's increments count for the operand, its answer for `.u`
+        keyof = {}
+        for b_, i_, x_, line_ in f.cfg.all_elems():
+            if not isinstance(x_, dict):
+                continue
+            for l_, kind_, n_ in writes(x_):
+                rhs_ = n_.get("init") if kind_ == "decl" else (n_.get("r") if n_.get("k") == "bin" and n_["op"] == "=" else None)
+                r_ = strip(f.cfg.resolve(rhs_)) if rhs_ is not None else {}
+                if r_.get("k") == "call" and r_.get("fn") and len(r_.get("a", [])) == 1 and prog.has_fn(r_["fn"], f.file) and lv(strip(f.cfg.resolve(r_["a"][0]))) in (p0, p1):
+                    g_ = prog.fn(r_["fn"], f.file)
+                    gp_ = g_.params[0]["n"] if g_.cfg and len(g_.params) == 1 else None
+                    grets_ = [g_.cfg.resolve(q_["e"]) for _b, _i, q_, _l in g_.cfg.all_elems() if isinstance(q_, dict) and q_.get("k") == "ret" and q_.get("e") is not None] if gp_ else []
+                    gw_ = sorted((lv(w_[0]), w_[1]) for _b, _i, q_, _l in g_.cfg.all_elems() for w_ in writes(g_.cfg.resolve(q_))) if gp_ else []
+                    plus1 = lambda w: w[1] == "incdec" or w[1] == "compound"
+                    if gp_ and len(grets_) == 1 and lv(strip(grets_[0])) == gp_ + ".u" and all(t_.startswith(gp_ + ".") and plus1((t_, k_)) for t_, k_ in gw_):
+                        ginc = _incs(g_, gp_) or sorted((t_.split(".", 1)[1], "+=1") for t_, k_ in gw_ if all(
+                            int_value(strip_casts(w_[2]["r"])) == 1 for _b, _i, q_, _l in g_.cfg.all_elems() for w_ in writes(g_.cfg.resolve(q_)) if w_[1] == "compound"))
+                        keyof[lv(l_)] = (lv(strip(f.cfg.resolve(r_["a"][0]))), [(x__[0], "++") for x__ in ginc])
+        if not i0 and not i1 and sorted(v_[0] for v_ in keyof.values()) == sorted([p0, p1]):
+            i0 = sorted(next(v_[1] for v_ in keyof.values() if v_[0] == p0))
+            i1 = sorted(next(v_[1] for v_ in keyof.values() if v_[0] == p1))
+        elif sorted(v_[0] for v_ in keyof.values()) != sorted([p0, p1]):
+            keyof = {}
         key = "%s/symmetric-normalisation" % name
         if i0 == i1 and {x[0] for x in i0} == {"H", "ms"}:
             rep.ok(rid, key, f.loc(), "both operands get %s" % i0)
@@ -65,6 +89,18 @@ def r20_1(prog, rep):
         key = "%s/strict-compare" % name
         if c.get("k") == "bin" and c["op"] in ("<", ">", "<=", ">="):
             l, r, o = lv(c["l"]), lv(c["r"]), c["op"]
+            l, r = (keyof[l][0] + ".u" if l in keyof else l), (keyof[r][0] + ".u" if r in keyof else r)
+            # a local with one definition stands for what it was defined from (`kx = <helper's answer> = x.u`, helper analysed inline)
+            defs_ = {}
+            for b_, i_, x_, line_ in f.cfg.all_elems():
+                if isinstance(x_, dict):
+                    for l_, kind_, n_ in writes(x_):
+                        rhs_ = n_.get("init") if kind_ == "decl" else (n_.get("r") if n_.get("k") == "bin" and n_["op"] == "=" else None)
+                        r_ = strip_casts(f.cfg.resolve(rhs_)) if rhs_ is not None else {}
+                        defs_.setdefault(lv(l_), set()).add(lv(r_) if r_.get("k") in ("ref", "mem") else None)
+            for _ in range(3):
+                l = next(iter(defs_[l])) if len(defs_.get(l, ())) == 1 and None not in defs_[l] and "." not in l else l
+                r = next(iter(defs_[r])) if len(defs_.get(r, ())) == 1 and None not in defs_[r] and "." not in r else r
             # normalise to  p0.u OP p1.u
             if l == p1 + ".u" and r == p0 + ".u":
                 o = {"<": ">", ">": "<", "<=": ">=", ">=": "<="}[o]
